@@ -465,4 +465,20 @@ fn c02_build_matches_history(directed: bool, multi: bool, s: u8) {
     core::mem::forget(sh);
 }
 
+/// get_neighbor_nodes for the one node whose predecessor/successor chain has a non-adjacent duplicate
+/// (shape 6: predecessors 0 and 1, successor 0): each neighbour exactly once.
+fn c02_neighbor_dups(multi: bool) {
+    let sh = shape(true, multi, 6).unwrap();
+    let g = build_direct(specs_of(true, multi), &sh.nodes, &sh.edges);
+    let nb = g.get_neighbor_nodes(Nm(2));
+    vassert!(kind_of(&nb) == 0, "get_neighbor_nodes succeeds");
+    vassert!(same_node_set(nb.as_ref().unwrap(), &sh, 2, 2), "get_neighbor_nodes lists each neighbour exactly once");
+    vcover!(true, "reached end");
+    core::mem::forget(nb);
+    core::mem::forget(g);
+    core::mem::forget(sh);
+}
+crate::vharness! { unwind = 9; fn c02_neighbor_dups_ds() { c02_neighbor_dups(false) } }
+crate::vharness! { unwind = 9; fn c02_neighbor_dups_dm() { c02_neighbor_dups(true) } }
+
 include!("gen_query_ac.rs");
